@@ -35,7 +35,7 @@ COMPONENTS = {
 ASSUMPTIONS = ["phase after a gap is implementation-defined and judged only by Python==Rust; cadence is judged "
                "inside unit-tick stretches relative to the target the implementation itself holds at stretch start",
                "default preserve_phase=true, timer_scale=1.0 only"]
-PROBES = ["both_fire_same_cycle", "gap_ge_3_periods", "restore_target_in_past", "period_one", "disabled_stretch",
+PROBES = ["machine_restart", "both_fire_same_cycle", "gap_ge_3_periods", "restore_target_in_past", "period_one", "disabled_stretch",
           "zero_period", "reset_mid_period", "period_change", "i32_clamp", "machine_wait_cover", "machine_halt_idle"]
 
 SMALL = [(a, b) for a in range(13) for b in range(13)]
@@ -113,6 +113,12 @@ def generate(batch: str, r: Rng, idx: int, tier: str) -> Dict[str, Any]:
     scn = machine.gen_machine_scenario(r, executor, feat, boundaries=n, faulty=False)
     scn["imem"] = [[progen.IMR, r.choice([0x00, 0x03, 0x0F, 0x7F])], [progen.ISR, 0]]   # master bit clear
     scn["ops"] = [[k, "ackisr", 0x03] for k in range(n)]
+    # crash/restart points: the real save_snapshot/load_snapshot path must keep timer state
+    rr = r.child("restarts")
+    for _ in range(rr.range(0, 2)):
+        k = rr.range(1, n - 1)
+        scn["ops"].append([k, "restart"])
+    scn["ops"].sort(key=lambda o: (o[0], 0 if o[1] == "restart" else 1))
     scn["kind"] = "machine"
     return scn
 
@@ -315,9 +321,16 @@ def _check_machine(scn: Dict[str, Any], hist: Dict[str, Any]) -> List[dict]:
     obs = hist["obs"]
     pre_map = hist.get("preobs", {})
     t = scn["timer"]
+    restarts = set(o[0] for o in scn["ops"] if o[1] == "restart")
     for k in range(len(obs) - 1):
         pre = pre_map.get(str(k), obs[k])
         post = obs[k + 1]
+        if k in restarts and k > 0:
+            a, b = obs[k], pre
+            if (a[machine.O_NMTI], a[machine.O_NSTI], a[machine.O_CYC]) != (b[machine.O_NMTI], b[machine.O_NSTI], b[machine.O_CYC]):
+                V("restore_changes_timer", k, f"snapshot->restore changed timer state: targets "
+                  f"({a[machine.O_NMTI]},{a[machine.O_NSTI]})@{a[machine.O_CYC]} -> "
+                  f"({b[machine.O_NMTI]},{b[machine.O_NSTI]})@{b[machine.O_CYC]}", field="state", level="machine")
         c0, c1 = pre[machine.O_CYC], post[machine.O_CYC]
         # cycle values this step handed to the timers.  Python ticks the pre-increment value c0 at the top of
         # the step and, inside WAIT, c0+1..c0+I before the final increment (c0..c1-1 in all); Rust increments
@@ -377,6 +390,8 @@ def stats(scn: Dict[str, Any], hist: Dict[str, Any]) -> Dict[str, Any]:
             probes["machine_wait_cover"] = 1
         if any(o[machine.O_PWR] == 1 for o in obs):
             probes["machine_halt_idle"] = 1
+        if any(o[1] == "restart" for o in scn["ops"]):
+            probes["machine_restart"] = 1
         return {"nontrivial": fired > 0, "sig": digest([scn["prog"]["image"], scn["timer"]]),
                 "faults": {"wait_burst": probes.get("machine_wait_cover", 0), "halt_idle": probes.get("machine_halt_idle", 0)},
                 "probes": probes, "cycles": obs[-1][machine.O_CYC] if obs else 0, "boundaries": len(obs) - 1}
